@@ -800,6 +800,22 @@ impl Connection {
     }
 }
 
+#[cfg(feature = "libtw2_verif")]
+impl Connection {
+    /// Verification hook: copy of the connection's logical state (scratch buffers are fresh).
+    pub fn verif_clone(&self) -> Connection {
+        Connection {
+            state: self.state.clone(),
+            send: self.send,
+            builder: PacketBuilder::new(),
+        }
+    }
+    /// Verification hook: rendering of the connection's logical state.
+    pub fn verif_fingerprint(&self) -> String {
+        format!("{:?} {:?}", self.state, self.send)
+    }
+}
+
 #[cfg(test)]
 mod test {
     use super::Callback;
